@@ -347,6 +347,38 @@ inline void enumerateMedium(const MediumCfg &cfg, const std::function<void(const
               }
 }
 
+// ---- large family -------------------------------------------------------------
+// A small grid of circuits with 120 and 400 cells on 12 and 30 rows (thresholds that lie above the medium family: more
+// cells in a row group than a default shift window, hundreds of elements in every sorted container).
+inline void enumerateLarge(const std::function<void(const Spec &)> &f) {
+  int rh = 2;
+  for (int nCells : {120, 400})
+    for (int nRows : {12, 30})
+      for (int wPat = 0; wPat < 3; ++wPat)
+        for (int pPat = 0; pPat < 2; ++pPat)
+          for (int nPat = 0; nPat < 2; ++nPat) {
+            int W = (nCells * 4) / nRows + 8;
+            Spec s;
+            for (int r = 0; r < nRows; ++r) s.rows.push_back(mkRow(0, W, r, rh, r % 2 ? oFS : oN));
+            for (int i = 0; i < nCells; ++i) {
+              CellSpec c;
+              c.w = wPat == 0 ? 2 : 1 + (i * 7 + i / 3) % 3;
+              c.h = (wPat == 2 && i % 37 == 5) ? 2 * rh : rh;
+              if (pPat == 0) { c.x = W / 2; c.y = rh * (nRows / 2); }
+              else { c.x = (i * 13) % (W - 3); c.y = rh * ((i * 7) % nRows); }
+              s.cells.push_back(c);
+            }
+            { CellSpec o; o.w = 3; o.h = rh * (nRows / 2); o.x = W / 3; o.y = 0; o.fixed = true; s.cells.push_back(o); }
+            if (nPat == 1) {
+              for (int i = 0; i + 1 < nCells; i += 2) { NetSpec n; n.pins = {{i, 0, 0}, {i + 1, 1, 1}, {(i * 5 + 3) % nCells, 0, 1}}; s.nets.push_back(n); }
+              NetSpec big;
+              for (int i = 0; i < nCells; i += 3) big.pins.push_back({i, i % 2, 0});
+              s.nets.push_back(big);
+            }
+            f(s);
+          }
+}
+
 // Primer calls for the worker processes (see verif.hpp): legalizations / detailed placements of circuits with restrictive
 // polarities, many cells, a fixed cell in front, a movable macro.
 inline std::vector<std::function<void()>> legalizationPrimers() {
